@@ -114,21 +114,32 @@ def get_module(ctx, b, case):
 
 
 def prepare(chk):
-    """build the (few) libraries of the listed findings' witnesses in parallel before they are replayed one by one"""
+    """The witnesses of the listed findings share a few libraries and are short, focused histories: build the libraries
+    and run all of them in parallel once; the runner's one-by-one replay then finds the results memoised."""
     b = core.build("asan")
     core.build("plain")
-    seen, todo = set(), []
-    for f in chk.findings:
-        c = f.get("case")
-        if c:
-            k = json.dumps({x: c.get(x) for x in ("libseed", "n_classes", "cfg", "files")}, sort_keys=True)
-            if k not in seen:
-                seen.add(k)
-                todo.append(c)
-    if todo:
-        ctx = chk.ctx()
-        with cf.ThreadPoolExecutor(len(todo)) as ex:
-            list(ex.map(lambda c: get_module(ctx, b, dict(c, id="prep-%s" % c["id"])), todo))
+    wit = [f["case"] for f in chk.findings if f.get("case")]
+    if not wit or os.environ.get("VERIF_C02_NO_PREFETCH"):
+        return
+    ctx = chk.ctx()
+    libs = {}
+    for c in wit:
+        libs.setdefault(json.dumps({x: c.get(x) for x in ("libseed", "n_classes", "cfg", "files")}, sort_keys=True), c)
+    with cf.ThreadPoolExecutor(max(1, min(8, len(libs)))) as ex:
+        list(ex.map(lambda c: get_module(ctx, b, dict(c, id="prep-%s" % c["id"])), libs.values()))
+    distinct = {}
+    for c in wit:
+        distinct.setdefault(json.dumps(c, sort_keys=True), c)
+
+    def one(c):
+        try:
+            return c, _run_case(ctx, c), None
+        except Exception as ex:      # noqa: reported when the runner replays the case itself
+            return c, None, ex
+    with cf.ThreadPoolExecutor(8) as ex:
+        for c, res, err in ex.map(one, distinct.values()):
+            if err is None:
+                _memo[json.dumps(c, sort_keys=True)] = res
 
 
 def run_case(ctx, case):
@@ -154,7 +165,7 @@ def _run_case(ctx, case):
             shutil.rmtree(d, ignore_errors=True)
         return res
     rcase = dict(id=case["id"], cfg=cfg, drvseed=case["drvseed"], nsteps=case["nsteps"], only=case.get("only"),
-                 files=libgen.read_files(d))
+                 libseed=case.get("libseed"), n_classes=case.get("n_classes"), files=libgen.read_files(d))
     if stage is not None:
         if stage.startswith(("interrogate-died", "interrogate_module-failed")):
             res.violation(f"tool-failed:{stage}", detail=detail, replay_case=rcase)
@@ -167,7 +178,8 @@ def _run_case(ctx, case):
             res.count("not_built")
             res.sample = dict(cfg=cfg, libseed=case.get("libseed"), outcome=stage, detail=detail[:400])
         return done()
-    env = {"PYTHONMALLOC": "malloc", "PYTHONDONTWRITEBYTECODE": "1", "PYTHONHASHSEED": "0",
+    progress_file = os.path.join(d, "progress-%s.txt" % case["id"])
+    env = {"PYTHONMALLOC": "malloc", "PYTHONDONTWRITEBYTECODE": "1", "PYTHONHASHSEED": "0", "VF_PROGRESS": progress_file,
            "ASAN_OPTIONS": core.SAN_ENV["ASAN_OPTIONS"] + ":verify_asan_link_order=0",
            "UBSAN_OPTIONS": "print_stacktrace=1:halt_on_error=1"}
     cmd = [sys.executable, DRV, d, os.path.join(d, "liba.model.json"), str(case["drvseed"]), str(case["nsteps"]),
@@ -181,7 +193,7 @@ def _run_case(ctx, case):
     line = next((l for l in rr.out.splitlines() if l.startswith("VFRESULT ")), None)
     if line is None:
         try:
-            progress = open(os.path.join(d, "progress.txt")).read()
+            progress = open(progress_file).read()
         except OSError:
             progress = ""
         res.count("interpreter_crashes")
